@@ -129,7 +129,8 @@ static void onetimeauth_stream(Ctx &c) {
 // reduction / conditional subtraction of every backend is exercised at the values random messages never produce
 static void onetimeauth_carry(Ctx &c) {
     Bytes key(32, 0); key[0] = (uint8_t) (1 + c.r.below(2)); for (int i = 16; i < 32; i++) key[(size_t) i] = (uint8_t) c.r.next(); if (c.chance(3)) for (int i = 16; i < 32; i++) key[(size_t) i] = 0xff;
-    int k = (int) c.r.below(15) - 6;
+    // k in 0..4 puts the final accumulator into [2^130 - 5, 2^130), where the conditional subtraction of p is taken (half of the cases aim there)
+    int k = c.chance(2) ? (int) c.r.below(5) : (int) c.r.below(15) - 6;
     if (c.chance(3)) {   // limb saturation: r = 1, blocks (V, 0, 0, 0); the 2^130 wrap carries into limbs that are all ones (26- and 44-bit limbs)
         int w = c.r.below(2) ? 26 : 44; int j = w == 26 ? 1 + (int) c.r.below(3) : 1; int kk = 1 + (int) c.r.below(6); bool odd = c.r.coin();
         unsigned __int128 V = ((unsigned __int128) 1 << w) - (unsigned) kk;
@@ -144,7 +145,8 @@ static void onetimeauth_carry(Ctx &c) {
     }
     Bytes m(48, 0); m[15] = 0x80; for (int i = 17; i < 31; i++) m[(size_t) i] = 0xff; m[16] = 0xf0; m[31] = 0x7f; m[32] = (uint8_t) (11 + k);
     if (key[0] == 2) { /* r = 2 doubles the accumulator each block: still a carry-heavy input, different target */ }
-    size_t tail = c.r.below(20); Bytes t = c.r.bytes(tail); m.insert(m.end(), t.begin(), t.end());
+    size_t tail = c.chance(2) ? 0 : c.r.below(20);       // a tail moves the accumulator away from the solved value: half of the cases have none
+    Bytes t = c.r.bytes(tail); m.insert(m.end(), t.begin(), t.end());
     if (c.chance(2)) { Bytes sh; for (int blk : { 2, 0, 1 }) sh.insert(sh.end(), m.begin() + 16 * blk, m.begin() + 16 * blk + 16); sh.insert(sh.end(), t.begin(), t.end()); m = sh; }
     uint8_t *kp = c.inb(key), *mp = c.inb(m), *tag = c.out(16);
     c.rc(crypto_onetimeauth(tag, mp, m.size(), kp)); c.rc(crypto_onetimeauth_verify(tag, mp, m.size(), kp));
